@@ -146,6 +146,31 @@ pub fn gen(seed: u64, n: usize, out: &mut Out) {
             4 | 5 => ("u32", 3000, false),
             _ => ("usize", 3000, false),
         };
+        if id % 6 == 3 {
+            // deep trees without path compression: merge equal-rank blocks pairwise (a binomial tree), no find_mut before
+            // into_labeling; the orientation decides whether the deep elements have the low or the high indices
+            let k = 3 + r.below(3);
+            let n0 = 1usize << k;
+            let hi_first = r.chance(50);
+            let mut ops: Vec<Op> = Vec::new();
+            for j in 0..k {
+                let size = 1usize << j;
+                let mut b = 0;
+                while b + 2 * size <= n0 {
+                    let (lo, hi) = (b + size - 1, b + 2 * size - 1);
+                    let (lo, hi) = if hi_first { (lo, hi) } else { (b, b + size) };
+                    ops.push(if r.chance(50) { Op::Union(hi, lo) } else { Op::TryUnion(hi, lo) });
+                    b += 2 * size;
+                }
+            }
+            for _ in 0..r.below(3) { ops.push(Op::Find(r.below(n0))); }
+            ops.push(Op::Labeling);
+            for _ in 0..r.below(4) { ops.push(Op::FindMut(r.below(n0))); }
+            ops.push(Op::Labeling);
+            emit(out, id, ix, n0, &ops);
+            out.stat("kind_binomial_tree");
+            continue;
+        }
         let (n0, ops) = gen_case(&mut r, kmax, big);
         emit(out, id, ix, n0, &ops);
     }
